@@ -9,7 +9,7 @@ from typing import Any
 from ..ctx import cfgs, engine
 from ..mayraise import ANY, B, S, X, analyse_function
 from ..model import AnalysisError, Program
-from ..paths import CannotEval, SymPath, evaluate, feasible_paths, show, truth
+from ..paths import CannotEval, SymPath, evaluate, feasible_paths, show, subterms, truth
 from ..report import Report
 from .c18 import report_obligations
 
@@ -165,8 +165,9 @@ def run(rep: Report, prog: Program, tier: str) -> None:
                 codeterms.add(a[2][0])
                 if codeterm is None or len(show(a[2][0])) > len(show(codeterm)):
                     codeterm = a[2][0]
-            if a[0] == "cmp" and a[1] == "in" and a[2][0] == "const" and isinstance(a[2][1], str):
-                nameterm = a[3]
+            for sa_ in ([a] + list(subterms(a)) if a[0] == "bool" else [a]):
+                if isinstance(sa_, tuple) and sa_ and sa_[0] == "cmp" and sa_[1] == "in" and isinstance(sa_[2], tuple) and sa_[2][0] == "const" and isinstance(sa_[2][1], str):
+                    nameterm = sa_[3]
     if codeterm is None or nameterm is None:
         raise AnalysisError("_classify: code / name terms not found")
     if not (nameterm[0] == "pure" and nameterm[1] == ".lower" and "__name__" in show(nameterm)):
